@@ -131,6 +131,11 @@ def mk_rich(cx, tag, kind):
     elif kind == 'even':
         # same stride as 'odd' on the shared replica, other offset
         o, _ = lib.mk_obs(cx, tag, {'e|r1': [2, 4, 6, 8, 10, 12], 'e|r2': [4, 6, 8, 10, 12]})
+    elif kind == 'prefix':
+        # one ensemble name is a prefix of the other: plain string order of the chain names ('eb|r1' < 'e|r1') differs from the ensemble-wise order; chain lengths differ
+        a, _ = lib.mk_obs(cx, tag + 'a', {'e|r1': [1, 2, 3, 4, 5]})
+        b, _ = lib.mk_obs(cx, tag + 'b', {'eb|r1': [2, 4, 6, 8, 10, 12]})
+        o = a * b + a
     elif kind == 'rangelike':
         # irregular lists that share length, end points and first stride with a range
         o, _ = lib.mk_obs(cx, tag, {'e|r1': [1, 3, 4, 7, 9], 'e|r2': [2, 4, 5, 6, 10, 12]})
@@ -291,6 +296,15 @@ def h_struct(cx, which):
         b = mk_rich(cx, 'b', 'irregular')
         obj = np.array([[a, b], [a * b, a - b], [b, 3 * a]], dtype=object)
         obj[2, 0].tag = 7
+    elif which in ('array-prefix', 'list-prefix', 'corr-prefix'):
+        a = mk_rich(cx, 'a', 'prefix')
+        b = mk_rich(cx, 'b', 'prefix')
+        if which == 'array-prefix':
+            obj = np.array([a, b, a * b], dtype=object)
+        elif which == 'list-prefix':
+            obj = [a, b - a, 2 * b]
+        else:
+            obj = pe.Corr([a, b, None, a + b])
     elif which == 'array3':
         a = mk_rich(cx, 'a', 'range')
         obj = np.array([[[a, 2 * a]], [[a * a, a + 1]]], dtype=object)
@@ -325,7 +339,7 @@ def h_struct(cx, which):
         schema_check(cx, J.json, which)
 
 
-def h_dict(cx):
+def h_dict(cx, many=False):
     import pyerrors as pe
     import pyerrors.input.json as J
     install(cx)
@@ -334,6 +348,10 @@ def h_dict(cx):
     c = mk_rich(cx, 'c', 'cov')
     corr = pe.Corr([lib.mk_obs(cx, 'k%d' % t, {'e|r1': [1, 2, 3, 4, 5]})[0] for t in range(2)] + [None])
     od = {'a': a, 'nested': {'b': b, 'l': [a, a * 2], 'deep': {'c': c, 'txt': 'hello', 'num': 3, 'li': [1, 'x', {'q': corr}]}}, 'arr': np.array([b, b * b], dtype=object), 1.5: 'float key', 'none': None}
+    if many:
+        # more than ten observable-valued entries (two-digit placeholders), values all different
+        for k in range(12):
+            od['m%02d' % k] = a * (k + 2) if k % 3 else (b + k if k % 2 else pe.Corr([a * (k + 1), a + k]))
     J.dump_dict_to_json(od, 'mem_dict', description='dd', gz=True)
     r = J.load_json_dict('mem_dict', verbose=False, gz=True)
     same_struct(cx, r, od, 'dict')
@@ -388,6 +406,10 @@ def jobs(tier, seed):
     add('obs', kinds=['multi', 'cov', 'covmix'], tags=['m', None, 2.5])
     add('obs', kinds=['jack', 'jackmix'], tags=[None, 'j'])
     add('obs', kinds=['odd', 'even'], tags=[None, None])
+    add('obs', kinds=['prefix', 'prefix', 'range'], tags=[None, 't', None])
+    for w in ('array-prefix', 'list-prefix', 'corr-prefix'):
+        add('struct', which=w)
+    add('dict', many=True)
     for w in ('list', 'list-cov', 'array', 'array3', 'corr', 'corr-none-tag', 'corr-matrix-none', 'corr-pad-prange-tag', 'corr-matrix-prange'):
         add('struct', which=w)
     add('dict')
